@@ -98,3 +98,196 @@ func TestDeadlockDetected(t *testing.T) {
 		t.Fatalf("want 1 violation got %+v internal=%q", st.Violations, st.Internal)
 	}
 }
+
+// run explores body exhaustively within bound and returns the set of observation logs.
+func run(t *testing.T, bound int, free bool, body func()) map[string]bool {
+	t.Helper()
+	outs := map[string]bool{}
+	var st Stats
+	Explore(Options{Name: t.Name(), Bound: bound, FreeSwitch: free}, body, func(e *Exec) {
+		s := ""
+		for _, o := range e.Obs {
+			s += o + ";"
+		}
+		if e.Deadlock {
+			s += "DEADLOCK;"
+		}
+		if e.Panic != nil {
+			s += "PANIC(" + e.Panic.Value + ");"
+		}
+		outs[s] = true
+	}, &st)
+	if st.Internal != "" {
+		t.Fatal(st.Internal)
+	}
+	return outs
+}
+
+func TestUnbufferedRendezvousAndClose(t *testing.T) {
+	outs := run(t, 2, true, func() {
+		ch := make(chan int)
+		Go("s", func() { Send(ch, 1); Send(ch, 2); Close(ch) })
+		a := Recv(ch)
+		b := Recv(ch)
+		_, ok := Recv2(ch)
+		Log("%d %d %v", a, b, ok)
+	})
+	if len(outs) != 1 || !outs["1 2 false;"] {
+		t.Fatalf("outcomes %v", outs)
+	}
+}
+
+func TestSendOnClosedPanicsAndCloseTwicePanics(t *testing.T) {
+	outs := run(t, 1, true, func() {
+		ch := make(chan int, 1)
+		Close(ch)
+		Send(ch, 1)
+	})
+	if len(outs) != 1 || !outs["PANIC(send on closed channel);"] {
+		t.Fatalf("outcomes %v", outs)
+	}
+	outs = run(t, 1, true, func() {
+		ch := make(chan int)
+		Close(ch)
+		Close(ch)
+	})
+	if !outs["PANIC(close of closed channel);"] {
+		t.Fatalf("outcomes %v", outs)
+	}
+}
+
+func TestBufferedChannelBlocksWhenFull(t *testing.T) {
+	outs := run(t, 2, true, func() {
+		ch := make(chan int, 1)
+		Send(ch, 1)
+		Go("r", func() { Log("got %d", Recv(ch)); Log("got %d", Recv(ch)) })
+		Send(ch, 2) // must wait for the receiver to make room
+		Log("sent")
+		WaitIdle()
+	})
+	for o := range outs {
+		if o != "got 1;sent;got 2;" && o != "got 1;got 2;sent;" {
+			t.Fatalf("impossible outcome %q (all: %v)", o, outs)
+		}
+	}
+	if len(outs) != 2 {
+		t.Fatalf("want both orders, got %v", outs)
+	}
+}
+
+func TestSelectTakesAnyReadyCaseAndDefault(t *testing.T) {
+	outs := run(t, 2, true, func() {
+		a, b := make(chan int, 1), make(chan int, 1)
+		Send(a, 1)
+		Send(b, 2)
+		ca, cb := RecvCase((<-chan int)(a)), RecvCase((<-chan int)(b))
+		switch Select(false, ca, cb) {
+		case 0:
+			Log("a%d", ca.Val)
+		case 1:
+			Log("b%d", cb.Val)
+		}
+		c := make(chan int)
+		if Select(true, RecvCase((<-chan int)(c))) == -1 {
+			Log("default")
+		}
+	})
+	if len(outs) != 2 || !outs["a1;default;"] || !outs["b2;default;"] {
+		t.Fatalf("outcomes %v", outs)
+	}
+}
+
+func TestRWMutexWriterPreferenceAndNoPhantomWriter(t *testing.T) {
+	// a reader may enter while a writer thread exists but has not called Lock yet
+	outs := run(t, 3, true, func() {
+		var m RWMutex
+		m.RLock()
+		Go("w", func() { m.Lock(); Log("w"); m.Unlock() })
+		Go("r2", func() { m.RLock(); Log("r2"); m.RUnlock() })
+		Yield("hold")
+		Log("main-unlock")
+		m.RUnlock()
+		WaitIdle()
+	})
+	// r2 before the unlock is possible only when it got in before the writer announced itself
+	if !outs["r2;main-unlock;w;"] || !outs["main-unlock;w;r2;"] {
+		t.Fatalf("missing expected interleavings: %v", outs)
+	}
+	for o := range outs {
+		if o == "w;main-unlock;r2;" || o == "w;r2;main-unlock;" {
+			t.Fatalf("writer entered while a reader held the lock: %v", outs)
+		}
+	}
+}
+
+func TestWaitGroupAndTimersUnderVirtualClock(t *testing.T) {
+	outs := run(t, 2, true, func() {
+		var wg WaitGroup
+		wg.Add(2)
+		Go("a", func() { Sleep(3 * time.Second); Log("a@%s", VNow()); wg.Done() })
+		Go("b", func() { Recv(After(time.Second)); Log("b@%s", VNow()); wg.Done() })
+		wg.Wait()
+		Log("done@%s", VNow())
+	})
+	if len(outs) != 1 || !outs["b@1s;a@3s;done@3s;"] {
+		t.Fatalf("outcomes %v", outs)
+	}
+}
+
+func TestTickerDropsTicksLikeGo(t *testing.T) {
+	outs := run(t, 1, true, func() {
+		tk := NewTicker(time.Second)
+		Sleep(3500 * time.Millisecond) // three ticks fire, the channel holds one
+		n := 0
+		for {
+			if Select(true, RecvCase(tk.C)) == -1 {
+				break
+			}
+			n++
+		}
+		tk.Stop()
+		Log("buffered=%d", n)
+	})
+	if len(outs) != 1 || !outs["buffered=1;"] {
+		t.Fatalf("outcomes %v", outs)
+	}
+}
+
+func TestContextCancelAndTimeout(t *testing.T) {
+	outs := run(t, 2, true, func() {
+		ctx, cancel := WithTimeout(Background(), 5*time.Second)
+		defer cancel()
+		c2, cancel2 := WithCancel(ctx)
+		Go("c", func() { Sleep(time.Second); cancel2() })
+		Recv(c2.Done())
+		Log("c2@%s err=%v", VNow(), c2.Err())
+		Recv(ctx.Done())
+		Log("ctx@%s err=%v", VNow(), ctx.Err())
+	})
+	if len(outs) != 1 || !outs["c2@1s err=context canceled;ctx@5s err=context deadline exceeded;"] {
+		t.Fatalf("outcomes %v", outs)
+	}
+}
+
+func TestDelayBoundingCountsEveryDeviation(t *testing.T) {
+	count := func(bound int, free bool) int {
+		var st Stats
+		Explore(Options{Name: "c", Bound: bound, FreeSwitch: free}, func() {
+			done := make(chan bool)
+			for i := 0; i < 3; i++ {
+				Go("t", func() { Yield("x"); Yield("y"); Send(done, true) })
+			}
+			for i := 0; i < 3; i++ {
+				Recv(done)
+			}
+		}, nil, &st)
+		return st.Executions
+	}
+	d0, d1, p0 := count(0, false), count(1, false), count(0, true)
+	if d0 != 1 {
+		t.Fatalf("delay bound 0 must be the single default schedule, got %d", d0)
+	}
+	if !(d1 > d0 && p0 > d1) {
+		t.Fatalf("expected 1 < delay-bound-1 (%d) < preemption-bound-0 with free switches (%d)", d1, p0)
+	}
+}
